@@ -1,4 +1,5 @@
 import N0Verif.Proofs.XPathCreate
+import N0Verif.Proofs.XPathHistory
 /-!
 # C03 — assigning to a missing xpath creates exactly the missing chain; `new()` appends
 
@@ -326,5 +327,89 @@ example : createIn (.dict .n0 []) [.name ['n'], .elem ['m'] sNew, .name ['x']] (
     = some (.dict .n0 [(['n'], .dict .n0 [(['m'], .list .n0 [.dict .n0 [(['x'], .int 5)]])])]) := by decide
 example : (setItem 40 exTree ['a', '/', 'n', '/', 'm', '[', 'n', 'e', 'w', '(', ')', ']', '/', 'x'] (.int 5)).1
     = .dict .n0 [(['a'], .dict .n0 [(['n'], .dict .n0 [(['m'], .list .n0 [.dict .n0 [(['x'], .int 5)]])])])] := by decide
+
+/-! ## 6. histories: creations interleaved with C02 writes and C05 deletions
+
+`Hist.Op` is one call: a write to an existing node, a creation by a `CStep` path below an existing
+dict node, a `delete` (with or without `recursively`) or a `pop` of an existing node — each with the
+canonical path text of the node **in the state the call is made in**.  `Hist.applyOp` is the plain
+nested dict/list model (`setAt`, `createIn`, `delAt`, `pruneUp`); `Hist.runOp` is the call through
+`__setitem__` / `delete` / `pop`.  `Hist.ValidOps t ops` says that every operation is inside the
+quantifier of C02/C03/C05 in the state it is applied to (the path is made of plain names, the
+addressed node exists, `createIn` is defined).  Nothing is asked of the keys *inside* the tree or
+inside written values: only the paths of the operations must be plain. -/
+
+/-- **C03 (histories).**  After any finite interleaving of creations with C02 writes and C05
+deletions/pops the tree equals the plain model that applied the same operations, no call raises,
+and every `pop` returned the node it removed (`obs`). -/
+theorem C03_history (fuel : Nat) (ops : List Hist.Op) (cls : Cls) (kvs : List (Str × Val))
+    (hv : Hist.ValidOps (.dict cls kvs) ops) (hf : ∀ op ∈ ops, fuel ≥ Hist.opFuel op) :
+    ∃ t' obs, Hist.applyOps (.dict cls kvs) ops = some (t', obs) ∧
+      Hist.runOps fuel (.dict cls kvs) ops = (t', .ok obs) :=
+  Hist.history fuel ops cls kvs hv hf
+
+/-- one call of a history, on its own: model = reference, nothing raised -/
+theorem C03_history_step (cls : Cls) (kvs : List (Str × Val)) (op : Hist.Op) (t' : Val) (fuel : Nat)
+    (hv : Hist.ValidOp (.dict cls kvs) op) (ha : Hist.applyOp (.dict cls kvs) op = some t')
+    (hf : fuel ≥ Hist.opFuel op) :
+    Hist.runOp fuel (.dict cls kvs) op = (t', .ok (Hist.obsOp (.dict cls kvs) op)) :=
+  Hist.runOp_ok cls kvs op t' fuel hv ha hf
+
+/-- the root stays a dictionary of the same class along a history -/
+theorem C03_history_root (cls : Cls) (kvs : List (Str × Val)) (op : Hist.Op) (t' : Val)
+    (hv : Hist.ValidOp (.dict cls kvs) op) (ha : Hist.applyOp (.dict cls kvs) op = some t') :
+    ∃ kvs', t' = .dict cls kvs' :=
+  Hist.applyOp_dict_root cls kvs op t' hv ha
+
+/-! Non-vacuity: a history with all five kinds of call on `exTree2`
+(`{a: {l: [1], k: 's'}}`):
+1. `d['//a/n/m[new()]/x'] = 5` (creation: names, element, name),
+2. `d['//a/l[0]'] = 7` (C02 write),
+3. `d.delete('//a/n/m[0]/x', recursively=True)` (removes `x`, then the emptied dict `m[0]`; the list `m` stays),
+4. `d.pop('//a/k', 'D')` (returns `'s'`),
+5. `d['//a/k[new()]'] = 9` (creation on the name that has just been removed). -/
+def exHistory : List Hist.Op :=
+  [ .create [.key ['a']] (.name ['n']) [.elem ['m'] ['n', 'e', 'w', '(', ')'], .name ['x']] (.int 5),
+    .write [.key ['a'], .key ['l'], .idx 0] (.int 7),
+    .del [.key ['a'], .key ['n'], .key ['m'], .idx 0, .key ['x']] true,
+    .pop [.key ['a'], .key ['k']] (.str ['D']) false,
+    .create [.key ['a']] (.elem ['k'] ['n', 'e', 'w', '(', ')']) [] (.int 9) ]
+
+theorem exHistory_valid : Hist.ValidOps exTree2 exHistory := by
+  refine .cons (t' := .dict .n0 [(['a'], .dict .n0 [(['l'], .list .n0 [.int 1]), (['k'], .str ['s']),
+      (['n'], .dict .n0 [(['m'], .list .n0 [.dict .n0 [(['x'], .int 5)]])])])]) ?_ (by decide) ?_
+  · refine ⟨⟨pk_a, trivial⟩, ⟨_, _, rfl⟩, pk_n, (by intro e h; cases h), ?_, by simp [GOk, CStep.isName]⟩
+    intro x hx; simp at hx; rcases hx with rfl | rfl
+    · exact ⟨pk_m, Or.inl (by decide)⟩
+    · exact pk_x
+  refine .cons (t' := .dict .n0 [(['a'], .dict .n0 [(['l'], .list .n0 [.int 7]), (['k'], .str ['s']),
+      (['n'], .dict .n0 [(['m'], .list .n0 [.dict .n0 [(['x'], .int 5)]])])])]) ?_ (by decide) ?_
+  · exact ⟨⟨pk_a, pk_l, trivial⟩, by simp, _, rfl⟩
+  refine .cons (t' := .dict .n0 [(['a'], .dict .n0 [(['l'], .list .n0 [.int 7]), (['k'], .str ['s']),
+      (['n'], .dict .n0 [(['m'], .list .n0 [])])])]) ?_ (by decide) ?_
+  · exact ⟨⟨pk_a, pk_n, pk_m, pk_x, trivial⟩, by simp, _, rfl⟩
+  refine .cons (t' := .dict .n0 [(['a'], .dict .n0 [(['l'], .list .n0 [.int 7]),
+      (['n'], .dict .n0 [(['m'], .list .n0 [])])])]) ?_ (by decide) ?_
+  · exact ⟨⟨pk_a, pk_k, trivial⟩, by simp, _, rfl⟩
+  refine .cons (t' := .dict .n0 [(['a'], .dict .n0 [(['l'], .list .n0 [.int 7]),
+      (['n'], .dict .n0 [(['m'], .list .n0 [])]), (['k'], .list .n0 [.int 9])])]) ?_ (by decide) (.nil _)
+  · exact ⟨⟨pk_a, trivial⟩, ⟨_, _, rfl⟩, pk_k, (by intro e h; cases h), by simp, by simp [GOk]⟩
+
+/-- the model run of that history, evaluated: final tree and what the calls returned -/
+example : Hist.runOps 40 exTree2 exHistory
+    = (.dict .n0 [(['a'], .dict .n0 [(['l'], .list .n0 [.int 7]),
+        (['n'], .dict .n0 [(['m'], .list .n0 [])]), (['k'], .list .n0 [.int 9])])],
+       .ok [Option.none, Option.none, Option.none, some (.str ['s']), Option.none]) := by decide
+/-- … and the same through the theorem -/
+example : ∃ t' obs, Hist.applyOps exTree2 exHistory = some (t', obs) ∧
+    Hist.runOps 40 exTree2 exHistory = (t', .ok obs) :=
+  C03_history 40 exHistory .n0 _ exHistory_valid (by decide)
+/-- the path texts the five calls are made with -/
+example : exHistory.map Hist.opPath =
+    [['/', '/', 'a', '/', 'n', '/', 'm', '[', 'n', 'e', 'w', '(', ')', ']', '/', 'x'],
+     ['/', '/', 'a', '/', 'l', '[', '0', ']'],
+     ['/', '/', 'a', '/', 'n', '/', 'm', '[', '0', ']', '/', 'x'],
+     ['/', '/', 'a', '/', 'k'],
+     ['/', '/', 'a', '/', 'k', '[', 'n', 'e', 'w', '(', ')', ']']] := by decide
 
 end N0.C03
